@@ -32,6 +32,7 @@ type opDef struct {
 	Kind  string // lock unlock unlock-id unlock-force locks locks-json locks-verify locks-verify-json locks-cached edit-new edit-old edit-r restore commit checkout merge push
 	File  string
 	Files []string // lock / unlock: the path list of the command (File is its first element)
+	Refs  []string // push: remote branch names updated by ONE `git push` (empty: the user's own branch work-<user>)
 	Fault *faultDef
 	Page  bool
 }
@@ -80,6 +81,12 @@ func kindText(kind, file string) string {
 		return "edit " + file + " (content of an older, already pushed version)"
 	case "edit-dup":
 		return "overwrite " + file + " with a copy of r.txt as pushed (bytes that already exist on the remote under another name)"
+	case "create":
+		return "create " + file + " (new, untracked file)"
+	case "add":
+		return "git add " + file
+	case "switch":
+		return "git checkout -b " + file + " origin/" + file
 	case "restore":
 		return "git checkout -- " + file
 	case "commit":
@@ -114,6 +121,7 @@ type node struct {
 	snap   snap
 	obs    *obs
 	dirty  [2][nFiles]bool
+	staged [2][nFiles]bool // the uncommitted state of the file is in the index (git add)
 	merged [2]bool
 	qEdit  [2]bool // q.dat was overwritten by edit-dup (then `merge side` would conflict and is not offered)
 	devs   int
@@ -136,6 +144,7 @@ type partDef struct {
 	MaxDevs  int
 	Share    float64 // share of the time budget (guard only; unused time rolls over)
 	Sym      bool    // both users have the same alphabet: states are identified up to exchanging the users
+	ByRef    bool    // the fake server scopes locks by ref (fakelfs.LocksByRef)
 }
 
 func (p *partDef) key(o *obs) uint64 {
@@ -176,14 +185,34 @@ func enabled(n *node, o opDef, maxDevs int) bool {
 	case "edit-new", "edit-old", "edit-r":
 		return !n.dirty[u][fileIdx(o.File)]
 	case "restore":
-		return n.dirty[u][fileIdx(o.File)]
+		return n.dirty[u][fileIdx(o.File)] && !n.staged[u][fileIdx(o.File)]
+	case "create":
+		return !n.obs.U[u].Exists[fileIdx(o.File)] && br == "work"
+	case "add":
+		return n.dirty[u][fileIdx(o.File)] && !n.staged[u][fileIdx(o.File)]
 	case "commit":
-		return br == "work" && (n.dirty[u][0] || n.dirty[u][1] || n.dirty[u][2])
+		if br != "work" {
+			return false
+		}
+		for i, f := range wfiles {
+			if n.dirty[u][i] && (f != fU || n.staged[u][i]) { // an untracked file is not committed by `commit -a`
+				return true
+			}
+		}
+		return false
 	case "merge":
 		return br == "work" && !n.merged[u] && !n.qEdit[u]
 	case "checkout":
 		return !n.qEdit[u] // side changes q.dat too: git would refuse or need a merge
 	case "push":
+		if len(o.Refs) > 0 {
+			for _, r := range o.Refs {
+				if n.obs.remoteRef("refs/heads/"+r) != n.obs.ref(u, "refs/heads/work") {
+					return br == "work"
+				}
+			}
+			return false // every target already is at the tip
+		}
 		if o.deviates() && n.obs.ref(u, "refs/heads/work") == n.obs.remoteRef("refs/heads/work-"+users[u]) {
 			return false // nothing to push: the deviation could not matter
 		}
@@ -230,14 +259,14 @@ func (e *envT) pushFacts(w *world, u int) (pushFacts, string) {
 	// effective value the way git resolves lfs.<url>.locksverify for the endpoint URL of this clone (best URL match,
 	// user name included): git-lfs itself may add a more specific key (see finding-4.md)
 	r := w.gx.Git(dir, "config", "--get-urlmatch", "lfs.locksverify", w.userURL(users[u]))
-	if r.TimedOut {
-		return pf, "timeout: git config"
+	if toolFailed(r) {
+		return pf, "tool failure: git config"
 	}
 	pf.Enabled = strings.TrimSpace(r.Out)
 	r = w.gx.Git(dir, "log", "--no-renames", "-c", "--name-status", "--format=commit:%H", "work", "--not", "--remotes=origin")
 	if !r.OK() {
-		if r.TimedOut {
-			return pf, "timeout: git log"
+		if toolFailed(r) {
+			return pf, "tool failure: git log"
 		}
 		panic(vx.ToolError{Msg: "git log failed: " + r.String()})
 	}
@@ -262,14 +291,12 @@ func (e *envT) pushFacts(w *world, u int) (pushFacts, string) {
 }
 
 // classifyUndetected explains why a path locked by the other user went through (only run when a violation is reported).
-func (e *envT) classifyUndetected(w *world, u int, pf pushFacts, paths []string, preSelf string) string {
+func (e *envT) classifyUndetected(w *world, u int, pf pushFacts, paths []string, preRemote []string) string {
 	dir := w.clone(u)
 	old := map[string]bool{}
-	// objects the remote already had BEFORE this push (the push itself moved refs/remotes/origin/work-<self>)
-	oargs := []string{"rev-list", "--objects", "refs/remotes/origin/main"}
-	if preSelf != "" {
-		oargs = append(oargs, preSelf)
-	}
+	// objects the remote already had BEFORE this push (the push itself moved remote-tracking refs): preRemote = the
+	// values of all refs/remotes/origin/* before the push
+	oargs := append([]string{"rev-list", "--objects"}, preRemote...)
 	r := w.gx.Git(dir, oargs...)
 	for _, ln := range strings.Split(r.Out, "\n") {
 		if f := strings.Fields(ln); len(f) >= 1 {
@@ -278,10 +305,8 @@ func (e *envT) classifyUndetected(w *world, u int, pf pushFacts, paths []string,
 	}
 	named := map[string]string{}
 	args := append([]string{"rev-list", "--objects"}, pf.Commits...)
-	args = append(args, "--not", "refs/remotes/origin/main")
-	if preSelf != "" {
-		args = append(args, preSelf)
-	}
+	args = append(args, "--not")
+	args = append(args, preRemote...)
 	r = w.gx.Git(dir, args...)
 	for _, ln := range strings.Split(r.Out, "\n") {
 		if f := strings.SplitN(ln, " ", 2); len(f) == 2 {
@@ -355,6 +380,15 @@ func (e *envT) runOp(w *world, n *node, o opDef) (gitx.Res, string) {
 		return write(o.File, "p-old\n")
 	case "edit-dup":
 		return write(o.File, "r-base\n")
+	case "create":
+		if err := os.WriteFile(filepath.Join(dir, o.File), []byte("new file "+o.File+"\n"), 0644); err != nil {
+			panic(vx.ToolError{Msg: "create: " + err.Error()})
+		}
+		return gitx.Res{}, "(create " + o.File + ", mode 0644, never added)"
+	case "add":
+		return git("add", o.File)
+	case "switch":
+		return git("checkout", "-q", "-b", o.File, "origin/"+o.File)
 	case "restore":
 		return git("checkout", "--", o.File)
 	case "commit":
@@ -367,10 +401,21 @@ func (e *envT) runOp(w *world, n *node, o opDef) (gitx.Res, string) {
 	case "merge":
 		return git("merge", "-q", "--no-edit", "side")
 	case "push":
+		if len(o.Refs) > 0 {
+			args := []string{"push", "-q", "origin"}
+			for _, r := range o.Refs {
+				args = append(args, "work:refs/heads/"+r)
+			}
+			return git(args...)
+		}
 		return git("push", "-q", "origin", "work:refs/heads/work-"+users[o.User])
 	}
 	panic(vx.ToolError{Msg: "unknown op kind " + o.Kind})
 }
+
+// toolFailed: the command could not be run to completion by the OS (timeout guard, fork/exec failure on an overloaded
+// machine): never an observation, the case is inconclusive.
+func toolFailed(r gitx.Res) bool { return r.TimedOut || r.Code == -2 }
 
 func clip(s string, n int) string {
 	if len(s) > n {
@@ -419,14 +464,14 @@ func (e *envT) step(w *world, pre *node, ro bool, o opDef, where string) stepOut
 	so.counters["t_us_command"] = time.Since(t1).Microseconds()
 	hits, apiLog := w.disarm()
 	so.res, so.cmd, so.apiLog = res, cmd, apiLog
-	if res.TimedOut {
-		so.inconcl = "timeout: " + cmd
+	if toolFailed(res) {
+		so.inconcl = "tool failure (timeout or exec error): " + o.Kind
 		return so
 	}
 	t2 := time.Now()
 	post := w.observe()
 	so.counters["t_us_observe"] = time.Since(t2).Microseconds()
-	nn := &node{obs: post, dirty: pre.dirty, merged: pre.merged, qEdit: pre.qEdit, devs: pre.devs, init: pre.init, depth: pre.depth + 1}
+	nn := &node{obs: post, dirty: pre.dirty, staged: pre.staged, merged: pre.merged, qEdit: pre.qEdit, devs: pre.devs, init: pre.init, depth: pre.depth + 1}
 	if o.deviates() {
 		nn.devs++
 	}
@@ -447,7 +492,18 @@ func (e *envT) step(w *world, pre *node, ro bool, o opDef, where string) stepOut
 		nn.qEdit[u] = true
 	case "edit-old":
 		// writing the bytes HEAD already has leaves the file clean
-		nn.dirty[u][fileI] = post.U[u].Content[fileI] != e.headContent(w, u, o.File)
+		hc := e.headContent(w, u, o.File)
+		if hc == "?" {
+			so.inconcl = "tool failure: git cat-file"
+			return so
+		}
+		nn.dirty[u][fileI] = post.U[u].Content[fileI] != hc
+	case "create":
+		nn.dirty[u][fileI] = true
+	case "add":
+		if res.OK() {
+			nn.staged[u][fileI] = true
+		}
 	case "restore":
 		if res.OK() {
 			nn.dirty[u][fileI] = false
@@ -456,15 +512,22 @@ func (e *envT) step(w *world, pre *node, ro bool, o opDef, where string) stepOut
 	case "commit":
 		if res.OK() && postHead != preHead {
 			for i, f := range wfiles {
+				if f == fU && !pre.staged[u][i] {
+					continue // untracked: not part of the commit, stays uncommitted
+				}
 				if pre.dirty[u][i] && lockable(f) {
 					scope = append(scope, f)
 				}
+				nn.dirty[u][i], nn.staged[u][i] = false, false
 			}
-			nn.dirty[u] = [nFiles]bool{}
 		}
 	case "checkout":
 		if res.OK() && post.branch(u) != pre.obs.branch(u) {
 			r := w.gx.Git(dir, "diff-tree", "-r", "--name-only", "--no-commit-id", preHead, postHead)
+			if toolFailed(r) {
+				so.inconcl = "tool failure: git diff-tree"
+				return so
+			}
 			for _, f := range strings.Fields(r.Out) {
 				if lockable(f) {
 					scope = append(scope, f)
@@ -477,6 +540,11 @@ func (e *envT) step(w *world, pre *node, ro bool, o opDef, where string) stepOut
 			scope = []string{fP, fQ, fN}
 		}
 	}
+
+	for i := range users {
+		post.Staged[i] = fmt.Sprint(nn.staged[i])
+	}
+	post.Key, post.KeyA = post.canonKey()
 
 	// ---- which locks did the server grant / release in this transition
 	preTab, postTab := map[string]lockRec{}, map[string]lockRec{}
@@ -532,8 +600,8 @@ func (e *envT) step(w *world, pre *node, ro bool, o opDef, where string) stepOut
 	if cacheRelevant {
 		// the statement's observation point: `git lfs locks --local --json`
 		r := w.gx.LFS(dir, "locks", "--local", "--json")
-		if r.TimedOut {
-			so.inconcl = "timeout: locks --local"
+		if toolFailed(r) {
+			so.inconcl = "tool failure: locks --local"
 			return so
 		}
 		var ll []localLock
@@ -701,10 +769,20 @@ func (e *envT) step(w *world, pre *node, ro bool, o opDef, where string) stepOut
 			if l == nil {
 				continue
 			}
+			fstate := "modified" // how the uncommitted change looks to git status
+			switch fi := fileIdx(f); {
+			case f == fU && !pre.staged[u][fi]:
+				fstate = "untracked"
+			case f == fU:
+				fstate = "added-new-file"
+			case pre.staged[u][fi]:
+				fstate = "staged"
+			}
 			so.counters["clause3_unlock_of_modified_file_evaluations"]++
+			so.counters["clause3_unlock_of_"+fstate+"_file"]++
 			so.evals++
 			if post.tableAt(f) == nil || post.tableAt(f).ID != l.ID {
-				so.viol("C16:unlock-released-modified-file:"+o.Kind+map[bool]string{true: ":fault", false: ""}[hits > 0],
+				so.viol("C16:unlock-released-modified-file:"+o.Kind+":"+fstate+map[bool]string{true: ":fault", false: ""}[hits > 0],
 					fmt.Sprintf("%s\nthen `%s` (exit %d) as %s while %s has uncommitted changes: the server released lock %s of %s (held by %s) although --force was not given\nstdout: %s\nstderr: %s",
 						where, cmd, res.Code, users[u], f, l.ID, l.Path, l.Owner, clip(res.Out, 300), clip(res.Err, 300)), nil)
 			}
@@ -713,25 +791,58 @@ func (e *envT) step(w *world, pre *node, ro bool, o opDef, where string) stepOut
 
 	// ---- clause 1: push
 	if o.Kind == "push" {
-		remoteRef := "refs/heads/work-" + users[u]
+		remoteRefs := []string{"refs/heads/work-" + users[u]}
+		if len(o.Refs) > 0 {
+			remoteRefs = nil
+			for _, r := range o.Refs {
+				remoteRefs = append(remoteRefs, "refs/heads/"+r)
+			}
+		}
+		remoteRef := strings.Join(remoteRefs, "+")
 		tip := post.ref(u, "refs/heads/work")
-		accepted := res.Code == 0 && post.remoteRef(remoteRef) == tip
-		rejected := res.Code != 0 && post.remoteRef(remoteRef) == pre.obs.remoteRef(remoteRef)
-		var theirs, own []string
-		for p := range pf.Touched {
-			if l := pre.obs.tableAt(p); l != nil {
-				if l.Owner == users[u] {
-					own = append(own, p)
-				} else {
-					theirs = append(theirs, p)
+		accepted, rejected := res.Code == 0, res.Code != 0
+		var preR, postR []string
+		for _, rr := range remoteRefs {
+			accepted = accepted && post.remoteRef(rr) == tip
+			rejected = rejected && post.remoteRef(rr) == pre.obs.remoteRef(rr)
+			preR, postR = append(preR, clip(pre.obs.remoteRef(rr), 8)), append(postR, clip(post.remoteRef(rr), 8))
+		}
+		// a lock counts for this push when the server reports it for one of the updated refs (every lock when the
+		// server does not scope locks by ref)
+		theirsM, ownM := map[string]bool{}, map[string]bool{}
+		for _, l := range pre.obs.Table {
+			if _, touched := pf.Touched[l.Path]; !touched {
+				continue
+			}
+			if w.byRef {
+				on := false
+				for _, rr := range remoteRefs {
+					on = on || l.Ref == rr
 				}
+				if !on {
+					continue
+				}
+			}
+			if l.Owner == users[u] {
+				ownM[l.Path] = true
+			} else {
+				theirsM[l.Path] = true
+			}
+		}
+		var theirs, own []string
+		for p := range theirsM {
+			theirs = append(theirs, p)
+		}
+		for p := range ownM {
+			if !theirsM[p] {
+				own = append(own, p)
 			}
 		}
 		sort.Strings(theirs)
 		sort.Strings(own)
-		ctx := fmt.Sprintf("%s\nthen `%s` as %s with %s=%q: new commits %v add/modify %v; locked by others: %v, by the pusher: %v; server table %v\nexit %d, remote ref %s -> %s (local tip %s)\nstderr: %s",
+		ctx := fmt.Sprintf("%s\nthen `%s` as %s with %s=%q: new commits %v add/modify %v; locked by others: %v, by the pusher: %v; server table %v\nexit %d, remote ref(s) "+remoteRef+" %s -> %s (local tip %s)\nstderr: %s",
 			where, cmd, users[u], "lfs.<url>.locksverify", pf.Enabled, short(pf.Commits), keysL(pf.Touched), theirs, own, pre.obs.Table, res.Code,
-			clip(pre.obs.remoteRef(remoteRef), 8), clip(post.remoteRef(remoteRef), 8), clip(tip, 8), clip(res.Err, 700))
+			strings.Join(preR, ","), strings.Join(postR, ","), clip(tip, 8), clip(res.Err, 700))
 		if !accepted && !rejected {
 			so.viol("C16:push:inconsistent-result", ctx, nil)
 		}
@@ -747,8 +858,17 @@ func (e *envT) step(w *world, pre *node, ro bool, o opDef, where string) stepOut
 					case hits > 0:
 						fp += fmt.Sprintf(":verify-answered-%d", o.Fault.Status)
 					default:
-						cl := e.classifyUndetected(w, u, pf, theirs, pre.obs.ref(u, "refs/remotes/origin/work-SELF"))
+						var preRemote []string
+						for _, r := range pre.obs.U[u].Refs {
+							if f := strings.Fields(r); len(f) == 2 && strings.HasPrefix(f[0], "refs/remotes/origin/") && len(f[1]) == 40 {
+								preRemote = append(preRemote, f[1])
+							}
+						}
+						cl := e.classifyUndetected(w, u, pf, theirs, preRemote)
 						fp += ":" + cl
+						if len(remoteRefs) > 1 {
+							fp += ":multi-ref-push"
+						}
 						if o.Page && cl == "new-blob" {
 							fp += ":paged"
 						}
@@ -775,7 +895,7 @@ func (e *envT) step(w *world, pre *node, ro bool, o opDef, where string) stepOut
 		} else {
 			so.counters["push_without_verification_enabled"]++
 		}
-		so.outcome = fmt.Sprintf("push[verify=%s]:%s:new=%d,theirs=%d,own=%d", pf.Enabled, map[bool]string{true: "accepted", false: "rejected"}[accepted], len(pf.Commits), len(theirs), len(own))
+		so.outcome = fmt.Sprintf("push[verify=%s,refs=%d]:%s:new=%d,theirs=%d,own=%d", pf.Enabled, len(remoteRefs), map[bool]string{true: "accepted", false: "rejected"}[accepted], len(pf.Commits), len(theirs), len(own))
 		if post.U[u].Cfg != pre.obs.U[u].Cfg {
 			so.outcome += ":config-changed"
 		}
@@ -949,7 +1069,7 @@ func (e *envT) buildBase(w *world) snap {
 	os.Chmod(filepath.Join(seed, fP), 0644)
 	gitx.WriteFile(seed, fP, []byte("p-base\n"), 0644)
 	must(gx.Git(seed, "commit", "-q", "-a", "-m", "c1"), "commit c1")
-	must(gx.Git(seed, "push", "-q", remote, "main"), "push seed")
+	must(gx.Git(seed, "push", "-q", remote, "main", "main:refs/heads/rel-a", "main:refs/heads/rel-b"), "push seed")
 	exec := func(dir string) { os.RemoveAll(dir) }
 	for u, name := range users {
 		dir := w.clone(u)
@@ -997,6 +1117,10 @@ func (e *envT) variant(w *world, base snap, verify string, ro bool) initState {
 		}
 	}
 	o := w.observe()
+	for i := range users {
+		o.Staged[i] = fmt.Sprint([nFiles]bool{})
+	}
+	o.Key, o.KeyA = o.canonKey()
 	n := &node{obs: o}
 	n.snap = w.capture()
 	return initState{Desc: fmt.Sprintf("locksverify=%s, lfs.setlockablereadonly=%v, no locks", verify, ro), Node: n, RO: ro}
@@ -1006,7 +1130,7 @@ func (e *envT) variant(w *world, base snap, verify string, ro bool) initState {
 func (e *envT) selfCheck(w *world, is initState) string {
 	o := is.Node.obs
 	for u, name := range users {
-		if o.U[u].W != [nFiles]bool{false, false, true, false} || o.U[u].Exists != [nFiles]bool{true, true, true, false} {
+		if o.U[u].W != [nFiles]bool{false, false, true, false, false} || o.U[u].Exists != [nFiles]bool{true, true, true, false, false} {
 			return fmt.Sprintf("selfcheck: initial write bits of %s are %v, expected p,q read-only and r writable", name, o.U[u].W)
 		}
 		if len(o.U[u].Cache) != 0 || o.branch(u) != "work" {
@@ -1106,6 +1230,38 @@ func multiAlphabet(thorough bool) []opDef {
 			ops = append(ops, lqp.with(&faultDef{"lock-create", 1, 403}, false), lpq.with(&faultDef{"lock-create", 2, 404}, false),
 				uqp.with(&faultDef{"lock-list", 1, 500}, false), uqp.with(&faultDef{"lock-delete", 1, 404}, false), upq.with(nil, true))
 		}
+	}
+	return ops
+}
+
+// unlockStatesAlphabet: one acting user; the file states git status distinguishes (clean, modified, staged, new file
+// added, untracked) crossed with lock / unlock / unlock --id / unlock over a list.
+func unlockStatesAlphabet(u int, thorough bool) []opDef {
+	ops := []opDef{
+		mk(u, "create", fU), mk(u, "add", fU), mk(u, "edit-new", fP), mk(u, "add", fP),
+		mk(u, "lock", fU), mk(u, "lock", fP), mk(u, "unlock", fU), mk(u, "unlock", fP),
+		mk(u, "unlock-id", fU), mk(u, "unlock-id", fP), mk(u, "commit", ""),
+	}
+	if thorough {
+		ops = append(ops, mkl(u, "unlock", fP, fU), mkl(u, "unlock", fU, fP), mkl(u, "lock", fP, fU), mk(u, "unlock-force", fU), mk(u, "locks-verify", ""))
+	}
+	return ops
+}
+
+// pushRefsAlphabet: one acting user, ONE `git push` updating one or two remote branches (both orders on the command
+// line) that share the new commits; the server scopes locks by ref, the other user's locks come from the initial states.
+func pushRefsAlphabet(u int, thorough bool) []opDef {
+	push := func(refs ...string) opDef {
+		o := mk(u, "push", "")
+		o.Refs = refs
+		o.Name = users[u] + ": git push origin work:" + strings.Join(refs, " work:")
+		return o
+	}
+	ab, ba := push("rel-a", "rel-b"), push("rel-b", "rel-a")
+	ops := []opDef{mk(u, "edit-new", fP), mk(u, "commit", ""), mk(u, "merge", ""), push("rel-a"), push("rel-b"), ab, ba,
+		ab.with(&faultDef{"lock-verify", 2, 500}, false), ab.with(nil, true)}
+	if thorough {
+		ops = append(ops, mk(u, "edit-new", fR), ab.with(&faultDef{"lock-verify", 1, 403}, false), ab.with(&faultDef{"lock-verify", 2, 404}, false), ba.with(nil, true))
 	}
 	return ops
 }
@@ -1220,6 +1376,7 @@ func (e *envT) bfs(p *partDef, deadline time.Time) (*vx.Stats, bfsInfo) {
 				defer wg.Done()
 				w := <-e.pool
 				defer func() { e.pool <- w }()
+				w.byRef = p.ByRef
 				for t := range ch {
 					if time.Now().After(deadline) {
 						continue
@@ -1328,6 +1485,7 @@ func (e *envT) replayRun(p *partDef) vx.RunFunc {
 		i := x.In(len(p.Inits))
 		w := <-e.pool
 		defer func() { e.pool <- w }()
+		w.byRef = p.ByRef
 		cur := *p.Inits[i].Node
 		cur.init = i
 		agg := vx.Result{Counters: map[string]int64{}, States: []uint64{p.key(cur.obs)}}
@@ -1411,6 +1569,7 @@ func TestVerifC16(t *testing.T) {
 	derive := func(from initState, desc string, ops ...opDef) initState {
 		w := <-e.pool
 		defer func() { e.pool <- w }()
+		w.byRef = false
 		cur := from.Node
 		for _, o := range ops {
 			so := e.step(w, cur, from.RO, o, "constructing initial state")
@@ -1427,6 +1586,10 @@ func TestVerifC16(t *testing.T) {
 	iP1Q2 := derive(iTrueOn, "p.dat locked by u1, q.dat locked by u2", lk(0, fP), lk(1, fQ))
 	iP2Q1 := derive(iTrueOn, "p.dat locked by u2, q.dat locked by u1", lk(1, fP), lk(0, fQ))
 	iN1 := derive(iTrueOn, "n.dat (absent on work) locked by u1", lk(0, fN))
+	sw := func(u int, br string) opDef { return mk(u, "switch", br) }
+	iRelAp := derive(iTrueOn, "u1 on branch rel-a holds p.dat (lock for refs/heads/rel-a)", sw(0, "rel-a"), lk(0, fP))
+	iRelBp := derive(iTrueOn, "u1 on branch rel-b holds p.dat (lock for refs/heads/rel-b)", sw(0, "rel-b"), lk(0, fP))
+	iRelBq := derive(iTrueOn, "u1 on branch rel-b holds q.dat (lock for refs/heads/rel-b)", sw(0, "rel-b"), lk(0, fQ))
 	iUnsetP1 := derive(iUnsetOn, "p.dat locked by u1", lk(0, fP))
 	iFalseP1 := derive(iFalseOn, "p.dat locked by u1", lk(0, fP))
 	var iP1, iP2, iQ1, iQ2, iPQ1, iPQ2 initState
@@ -1442,24 +1605,28 @@ func TestVerifC16(t *testing.T) {
 	var parts []partDef
 	if e.thorough {
 		parts = []partDef{
-			{Name: "locks", Inits: []initState{iTrueOn}, Ops: locksAlphabet(true, false), MaxDepth: 4, MaxDevs: 0, Share: 15, Sym: true},
-			{Name: "locks-faults", Inits: []initState{iTrueOn, iP1, iP1Q2}, Ops: faultAlphabet(true), MaxDepth: 3, MaxDevs: 1, Share: 27, Sym: true},
-			{Name: "locks-multi", Inits: []initState{iTrueOn, iP1Q2, iN1, iPQ1, iP1}, Ops: multiAlphabet(true), MaxDepth: 2, MaxDevs: 1, Share: 12, Sym: true},
-			{Name: "locks-multi-deep", Inits: []initState{iTrueOn, iP1Q2, iN1}, Ops: multiAlphabet(false), MaxDepth: 3, MaxDevs: 1, Share: 12, Sym: true},
+			{Name: "unlock-states", Inits: []initState{iTrueOn}, Ops: unlockStatesAlphabet(0, true), MaxDepth: 5, MaxDevs: 0, Share: 3},
+			{Name: "push-refs", Inits: []initState{iRelAp, iRelBp, iRelBq, iTrueOn}, Ops: pushRefsAlphabet(1, true), MaxDepth: 4, MaxDevs: 1, Share: 5, ByRef: true},
 			{Name: "locks-readonly-off", Inits: []initState{iTrueOff}, Ops: locksAlphabet(false, false), MaxDepth: 3, MaxDevs: 0, Share: 3, Sym: true},
-			{Name: "push", Inits: []initState{iTrueOn, iP1, iP2, iQ1, iQ2, iP1Q2, iP2Q1, iPQ1, iPQ2}, Ops: pushAlphabet(true, []int{1}, true), MaxDepth: 4, MaxDevs: 1, Share: 30},
-			{Name: "push-deep", Inits: []initState{iTrueOn, iP1Q2, iP2Q1}, Ops: pushAlphabet(true, []int{1}, false), MaxDepth: 5, MaxDevs: 0, Share: 10},
 			{Name: "push-two-users", Inits: []initState{iTrueOn}, Ops: pushAlphabet(true, []int{0, 1}, false), MaxDepth: 4, MaxDevs: 0, Share: 3, Sym: true},
 			{Name: "push-verify-unset-or-false", Inits: []initState{iUnsetP1, iFalseP1, iUnsetOn}, Ops: pushAlphabet(false, []int{1}, true), MaxDepth: 3, MaxDevs: 1, Share: 2},
+			{Name: "push-deep", Inits: []initState{iTrueOn, iP1Q2, iP2Q1}, Ops: pushAlphabet(true, []int{1}, false), MaxDepth: 5, MaxDevs: 0, Share: 8},
+			{Name: "push", Inits: []initState{iTrueOn, iP1, iP2, iQ1, iQ2, iP1Q2, iP2Q1, iPQ1, iPQ2}, Ops: pushAlphabet(true, []int{1}, true), MaxDepth: 4, MaxDevs: 1, Share: 20},
+			{Name: "locks-multi", Inits: []initState{iTrueOn, iP1Q2, iN1, iPQ1, iP1}, Ops: multiAlphabet(true), MaxDepth: 2, MaxDevs: 1, Share: 12, Sym: true},
+			{Name: "locks-multi-deep", Inits: []initState{iTrueOn, iP1Q2, iN1}, Ops: multiAlphabet(false), MaxDepth: 3, MaxDevs: 1, Share: 12, Sym: true},
+			{Name: "locks", Inits: []initState{iTrueOn}, Ops: locksAlphabet(true, false), MaxDepth: 4, MaxDevs: 0, Share: 16, Sym: true},
+			{Name: "locks-faults", Inits: []initState{iTrueOn, iP1, iP1Q2}, Ops: faultAlphabet(true), MaxDepth: 3, MaxDevs: 1, Share: 26, Sym: true},
 		}
 	} else {
 		parts = []partDef{
-			{Name: "locks", Inits: []initState{iTrueOn}, Ops: locksAlphabet(false, false), MaxDepth: 3, MaxDevs: 0, Share: 35, Sym: true},
-			{Name: "locks-faults", Inits: []initState{iTrueOn, iP1Q2}, Ops: faultAlphabet(false), MaxDepth: 2, MaxDevs: 1, Share: 20, Sym: true},
-			{Name: "locks-multi", Inits: []initState{iTrueOn, iP1Q2, iN1}, Ops: multiAlphabet(false), MaxDepth: 2, MaxDevs: 1, Share: 25, Sym: true},
-			{Name: "locks-readonly-off", Inits: []initState{iTrueOff}, Ops: locksAlphabet(false, false), MaxDepth: 2, MaxDevs: 0, Share: 7, Sym: true},
-			{Name: "push", Inits: []initState{iTrueOn, iP1Q2, iP2Q1}, Ops: pushAlphabet(false, []int{1}, true), MaxDepth: 4, MaxDevs: 1, Share: 30},
-			{Name: "push-verify-unset-or-false", Inits: []initState{iUnsetP1, iFalseP1}, Ops: pushMini(1), MaxDepth: 3, MaxDevs: 0, Share: 5},
+			{Name: "unlock-states", Inits: []initState{iTrueOn}, Ops: unlockStatesAlphabet(0, false), MaxDepth: 4, MaxDevs: 0, Share: 6},
+			{Name: "push-refs", Inits: []initState{iRelAp, iRelBp, iRelBq}, Ops: pushRefsAlphabet(1, false), MaxDepth: 3, MaxDevs: 1, Share: 6, ByRef: true},
+			{Name: "locks-readonly-off", Inits: []initState{iTrueOff}, Ops: locksAlphabet(false, false), MaxDepth: 2, MaxDevs: 0, Share: 4, Sym: true},
+			{Name: "push-verify-unset-or-false", Inits: []initState{iUnsetP1, iFalseP1}, Ops: pushMini(1), MaxDepth: 3, MaxDevs: 0, Share: 2},
+			{Name: "locks", Inits: []initState{iTrueOn}, Ops: locksAlphabet(false, false), MaxDepth: 3, MaxDevs: 0, Share: 20, Sym: true},
+			{Name: "locks-faults", Inits: []initState{iTrueOn, iP1Q2}, Ops: faultAlphabet(false), MaxDepth: 2, MaxDevs: 1, Share: 18, Sym: true},
+			{Name: "locks-multi", Inits: []initState{iTrueOn, iP1Q2, iN1}, Ops: multiAlphabet(false), MaxDepth: 2, MaxDevs: 1, Share: 26, Sym: true},
+			{Name: "push", Inits: []initState{iTrueOn, iP1Q2, iP2Q1}, Ops: pushAlphabet(false, []int{1}, true), MaxDepth: 4, MaxDevs: 1, Share: 32},
 		}
 	}
 
@@ -1521,7 +1688,7 @@ func TestVerifC16(t *testing.T) {
 		os.Exit(2)
 	}
 
-	deadline := c.DeadlineAfter(140*time.Second, 21*time.Minute)
+	deadline := c.DeadlineAfter(320*time.Second, 21*time.Minute)
 	only := os.Getenv("VERIF_ONLY")
 	var vparts []vx.Part
 	var infos []bfsInfo
